@@ -4,7 +4,7 @@ cd /verif
 rc=0
 for f in props/C*.json; do
   id=$(basename $f .json)
-  out=$(./bin/govc check $id "$@" 2>&1)
+  out=$(VERIF_STRICT=1 ./bin/govc check $id "$@" 2>&1)
   line=$(echo "$out" | grep "^$id:" | tail -1)
   echo "$line"
   if echo "$out" | grep -q "^VIOLATION"; then rc=1; echo "$out" | grep "^VIOLATION" | head -3 | cut -c1-220; fi
